@@ -34,6 +34,7 @@ class Client:
         self.rewrite = rewrite
         self.seen = {}          # url -> (status, bytes the validator received)
         self.order = []
+        self.manifests = []     # manifest documents in the order the validator received them
 
     class Resp:
         def __init__(self, status, data, headers, mimetype):
@@ -68,6 +69,8 @@ class Client:
                 st, data = out
         self.seen[url] = (st, data)
         self.order.append(url)
+        if url.split('?')[0].endswith('.mpd') and st == 200:
+            self.manifests.append(data)
         return Client.Resp(st, data, r.headers, r.mimetype)
 
     async def head(self, url, headers=None, params=None, status=None, xhr=False):
@@ -88,7 +91,9 @@ def media_segments(dv):
     return out
 
 
-async def session(env, clock, url, mode, encrypted, rewrite=None, refreshes=0, duration=8):
+async def session(env, clock, url, mode, encrypted, rewrite=None, refreshes=0, duration=8, until_finished=0):
+    """until_finished = N > 0: keep refreshing (advancing the clock by minimumUpdatePeriod) until dv.finished(), at most N times;
+    the returned validator has .c18_finished set"""
     from dashlive.mpeg.dash.validator import DashValidator, ValidatorOptions, ConcurrentWorkerPool
     errors, segs = [], []
     with ThreadPoolExecutor(max_workers=2) as tpe:
@@ -116,6 +121,21 @@ async def session(env, clock, url, mode, encrypted, rewrite=None, refreshes=0, d
             await dv.validate()
             errors += list(dv.get_errors())
             segs += media_segments(dv)
+        dv.c18_finished = True
+        if until_finished:
+            n = 0
+            while not dv.finished() and n < until_finished:
+                n += 1
+                mup = dv.manifest.minimumUpdatePeriod
+                step = mup.total_seconds() if mup is not None and mup.total_seconds() > 0 else 4
+                clock.set(clock.now + datetime.timedelta(seconds=step))
+                if not await dv.refresh():
+                    break
+                await dv.validate()
+                errors += list(dv.get_errors())
+                segs += media_segments(dv)
+            dv.c18_finished = dv.finished()
+            dv.c18_refreshes = n
         for h in dv.get_validation_history():
             errors += list(h.errors)
     uniq = {}
@@ -257,7 +277,51 @@ def seg_errors_of(errors, ms):
     return out
 
 
+MCODES = ['MNoPeriod', 'MMinBuf', 'MType', 'MAst', 'MTsbd', 'MMpdInLive', 'MMpdInvalid', 'MPeriodDur', 'MMupInVod', 'MAstInVod', 'MPatchInVod',
+          'MAstChanged']
+
+
+def classify_manifest(msg):
+    table = [('does not have a Period', 'MNoPeriod'), ('minBufferTime must be present', 'MMinBuf'), ('MPD@type must be', 'MType'),
+             ('availabilityStartTime must be present', 'MAst'), ('timeShiftBufferDepth must be present', 'MTsbd'),
+             ('mediaPresentationDuration must not be present', 'MMpdInLive'), ('Invalid MPD@mediaPresentationDuration', 'MMpdInvalid'),
+             ('Period@duration must be present', 'MPeriodDur'), ('minimumUpdatePeriod must not be present', 'MMupInVod'),
+             ('availabilityStartTime must not be present', 'MAstInVod'), ('PatchLocation elements should only', 'MPatchInVod'),
+             ('availabilityStartTime has changed', 'MAstChanged')]
+    for key, code in table:
+        if key in msg:
+            return code
+    return None
+
+
+def manifest_facts(mode, docs):
+    """the mfacts record from the manifest documents the validator received (the last one, and the one before it)"""
+    from lxml import etree
+    from ..manifesthttp import parse_duration_us, parse_datetime, us_since_epoch
+
+    def ast_of(data):
+        try:
+            v = etree.fromstring(data).get('availabilityStartTime')
+            return None if v is None else us_since_epoch(parse_datetime(v))
+        except Exception:  # noqa
+            return None
+    root = etree.fromstring(docs[-1])
+    ns = '{urn:mpeg:dash:schema:mpd:2011}'
+    periods = [p for p in root if p.tag == ns + 'Period']
+    mpd = root.get('mediaPresentationDuration')
+    opt = lambda v: [] if v is None else [int(v)]   # noqa
+    prev = ast_of(docs[-2]) if len(docs) > 1 else None
+    return [-1, 1 if mode == 'live' else 0, 1 if root.get('type') == 'dynamic' else 0, len(periods), int(root.get('minBufferTime') is not None),
+            int(root.get('availabilityStartTime') is not None), int(root.get('timeShiftBufferDepth') is not None),
+            int(root.get('minimumUpdatePeriod') is not None), opt(None if mpd is None else parse_duration_us(mpd)),
+            int(all(p.get('duration') is not None for p in periods)), len([e for e in root if e.tag == ns + 'PatchLocation']),
+            opt(prev), opt(ast_of(docs[-1]))]
+
+
 # ------------------------------------------------------------------ suites
+MREQS, MMETA = [], []
+
+
 def configs(ctx):
     templates = ['hand_made.mpd', 'manifest_e.mpd', 'manifest_a.mpd', 'manifest_b.mpd', 'manifest_ef.mpd', 'manifest_h.mpd', 'manifest_i.mpd',
                  'manifest_n.mpd', 'manifest_vod_aiv.mpd']
@@ -267,8 +331,10 @@ def configs(ctx):
             for drm in ('', 'all', 'playready', 'clearkey'):
                 for extra in ('', 'timeline=1', 'events=ping&ping__inband=1', 'timeline=1&events=scte35', 'abr=0', 'time=xsd'):
                     out.append((t, mode, drm, extra))
+    out += [('mps:hand_made.mpd', 'vod', '', ''), ('mps:manifest_e.mpd', 'vod', 'all', '')]
     if ctx.quick():
         must = [c for c in out if c[0] in ('hand_made.mpd', 'manifest_e.mpd') and c[3] in ('', 'timeline=1') and c[2] in ('', 'all')]
+        must += [c for c in out if c[0].startswith('mps:')]
         rest = [c for c in out if c not in must]
         return must + ctx.rng.sample(rest, 10)
     return out
@@ -276,6 +342,9 @@ def configs(ctx):
 
 def url_of(cfg):
     t, mode, drm, extra = cfg
+    if t.startswith('mps:'):
+        q = [x for x in (('drm=' + drm) if drm else '', extra) if x]
+        return 'http://localhost/mps/%s/mps1/%s%s' % (mode, t[4:], ('?' + '&'.join(q)) if q else '')
     q = [x for x in (('drm=' + drm) if drm else '', extra, 'start=2024-03-05T11:00:00Z' if mode == 'live' else '') if x]
     return 'http://localhost/dash/%s/bbb/%s%s' % (mode, t, ('?' + '&'.join(q)) if q else '')
 
@@ -306,6 +375,12 @@ def pristine_suite(ctx, env):
         for e in errors[:3]:
             ctx.violation('pristine %s: the validator reports "%s" (lines %s)' % (url, e.msg[:160], tuple(e.location)), {'url': url},
                           key=None)
+        if cl.manifests:
+            try:
+                MREQS.append(manifest_facts(cfg[1], cl.manifests))
+                MMETA.append(({'session': url, 'refreshes': len(cl.manifests) - 1}, sorted({classify_manifest(e.msg) for e in errors} - {None})))
+            except Exception:  # noqa
+                pass
         validated = [(a, r, ms) for a, r, ms in segs if getattr(ms, 'validated', False) and ms.url in cl.seen]
         if validated:
             ctx.nontriv(('pristine', url))
@@ -472,6 +547,12 @@ def manifest_corruptions(ctx, env):
                 continue
         ctx.count('validator:manifest-corruption')
         inp = {'url': url, 'corruption': name}
+        if dv is not None and cl.manifests and not name.startswith('init') and not name.startswith('SegmentTimeline'):
+            try:
+                MREQS.append(manifest_facts(mode, cl.manifests))
+                MMETA.append((dict(inp), sorted({classify_manifest(e.msg) for e in errors} - {None})))
+            except Exception:  # noqa
+                pass
         if dv is None:
             ctx.nontriv(('manifest-corruption', name))          # refusing to load the document is a report
             continue
@@ -482,6 +563,59 @@ def manifest_corruptions(ctx, env):
                           key='mislocated:%s' % name)
         else:
             ctx.nontriv(('manifest-corruption', name))
+
+
+def finishing_suite(ctx, env):
+    """the driving loop of docs/validate.md: validate, then refresh until finished(); it must finish (bounded number of refreshes:
+    requested duration / minimumUpdatePeriod plus slack) and report nothing on pristine output"""
+    from ..appenv import Clock, utc
+    cases = [('hand_made.mpd', 'live', '', 'depth=16', 30), ('hand_made.mpd', 'live', '', 'depth=20&timeline=1', 44),
+             ('manifest_e.mpd', 'live', '', 'depth=30', 20), ('hand_made.mpd', 'live', 'all', 'depth=16&timeline=1', 24),
+             ('hand_made.mpd', 'vod', '', '', 30), ('manifest_a.mpd', 'live', '', 'depth=12', 20)]
+    if ctx.quick():
+        cases = cases[:3]
+    for t, mode, drm, extra, duration in cases:
+        url = url_of((t, mode, drm, extra))
+        clock = Clock(utc(2024, 3, 5, 12, 0, 7))
+        bound = 40
+        with clock:
+            try:
+                dv, cl, errors, segs = asyncio.run(asyncio.wait_for(
+                    session(env, clock, url, mode, bool(drm), duration=duration, until_finished=bound), timeout=300))
+            except asyncio.TimeoutError:
+                ctx.violation('the validator session on %s (duration %d s) did not end within 300 s' % (url, duration), {'url': url, 'duration': duration})
+                continue
+            except Exception as e:  # noqa
+                ctx.violation('the validator raised %s on %s (duration %d s): %s' % (type(e).__name__, url, duration, str(e)[:100]),
+                              {'url': url, 'duration': duration})
+                continue
+        ctx.count('validator:finishing-session')
+        inp = {'url': url, 'duration': duration}
+        if dv is None:
+            ctx.violation('the validator could not load %s' % url, inp)
+            continue
+        if not dv.c18_finished:
+            # known class: a $Number$ representation whose segment is longer than half the time-shift buffer never gets a
+            # segment inside the validator's own availability window
+            starved = []
+            try:
+                tsbd = dv.manifest.timeShiftBufferDepth.total_seconds()
+                for p_ in dv.manifest.periods:
+                    for a_ in p_.adaptation_sets:
+                        for r_ in a_.representations:
+                            st_ = r_.segmentTemplate
+                            if st_ is not None and st_.segmentTimeline is None and st_.duration and 2.0 * st_.duration / st_.timescale > tsbd \
+                                    and not r_.media_segments:
+                                starved.append(r_.id)
+            except Exception:  # noqa
+                pass
+            ctx.violation('pristine %s, requested duration %d s: the validator is still not finished after %d refreshes (%d requests)%s'
+                          % (url, duration, bound, len(cl.order), '; representations without any segment to validate: %s' % starved if starved else ''),
+                          inp, key='never-finishes:long-segments' if starved else None)
+        for e in errors[:2]:
+            ctx.violation('pristine %s over %d refreshes: the validator reports "%s"' % (url, getattr(dv, 'c18_refreshes', 0), e.msg[:160]), inp)
+        if dv.c18_finished and not errors:
+            ctx.nontriv(('finishing', url, duration))
 
 
 def run(ctx):
@@ -495,9 +629,12 @@ def run(ctx):
     from ..appenv import AppEnv
     env = AppEnv(ctx.workdir, streams=('bbb',))
     logging.disable(logging.CRITICAL)
+    env.add_mps('mps1', [dict(pid='p1', stream='bbb', start_s=0, duration_s=20), dict(pid='p2', stream='bbb', start_s=8, duration_s=16)])
+    del MREQS[:], MMETA[:]
     reqs1, meta1 = pristine_suite(ctx, env)
     reqs2, meta2 = corruption_suite(ctx, env)
     manifest_corruptions(ctx, env)
+    finishing_suite(ctx, env)
     res = common.run_model_parallel(18, reqs1 + reqs2)
     ok = True
     for (inp, got), m in zip(meta1 + meta2, res):
@@ -508,6 +645,15 @@ def run(ctx):
             ok = False
             ctx.disagree('segment verdict', inp, want, got)
     ctx.oblige('correspondence:DashValidator(media segment)-vs-ValidatorModel.seg_errors', ok)
+    res = common.run_model_parallel(18, MREQS)
+    ok = True
+    for (inp, got), m in zip(MMETA, res):
+        ctx.count('corr:manifest-verdict')
+        want = sorted({MCODES[i] for i in m})
+        if want != got:
+            ok = False
+            ctx.disagree('manifest verdict', inp, want, got)
+    ctx.oblige('correspondence:DashValidator(manifest checks)-vs-ValidatorModel.manifest_errors', ok)
     env.close()
 
 
